@@ -689,6 +689,13 @@ Plan gen_hist_plan(uint64_t seed, bool oom, int focus) {
         o.fault.frac = (int)r.below(1000);
       }
     }
+    // libyaep++ creates its container objects with the global operator new, which reports failure by throwing:
+    // one run in ten also fails the k-th such request of one call (no effect on the C library).  Known finding KF-2.
+    if (!cand.empty() && r.chance(1, 10)) {
+      Op &o = plan.ops[cand[(size_t)r.below(cand.size())]];
+      o.fault.type = Fault::NEWFAIL;
+      o.fault.k = r.chance(1, 2) ? r.range(1, 4) : r.range(1, 24);
+    }
   }
   return plan;
 }
